@@ -74,6 +74,17 @@ theorem tree_append (root nd : Node) (p : List Nat) (id : Nat) (hp : getAt root 
     ∃ r', (TreeOp.new p id).step root = some r' ∧ getAt r' p = some ⟨nd.id, nd.tag, nd.kids ++ [Node.fresh id]⟩ :=
   ⟨_, by simp [TreeOp.step, hp], getAt_setKidsAt_same p root nd _ hp⟩
 
+/-- **Appending a copy of any node of the tree** — an item of the destination array itself (the argument
+then refers into the storage that grows), an ancestor, anything: the destination gets its old kids
+followed by the node as it was before the operation; unrelated paths are unchanged. -/
+theorem tree_append_copy (root dn sn : Node) (d s : List Nat)
+    (hd : getAt root d = some dn) (hs : getAt root s = some sn) :
+    ∃ r', (TreeOp.appendCopy d s).step root = some r' ∧
+      getAt r' d = some ⟨dn.id, dn.tag, dn.kids ++ [sn]⟩ ∧
+      (∀ p, ¬ d <+: p → ¬ p <+: d → getAt r' p = getAt root p) :=
+  ⟨_, by simp [TreeOp.step, hd, hs], getAt_setKidsAt_same d root dn _ hd,
+    fun p h1 h2 => getAt_setKidsAt_disjoint d p root _ h1 h2⟩
+
 /-! Non-vacuity (tests by evaluation): `root.kids[0].kids = root.kids` (source contains the destination)
 and `root.kids = root.kids[0].kids` (destination contains the source). -/
 example : ((runTree [.new [] 1, .new [] 2, .new [0] 3, .copy [0] []] rootInit).bind (·.getLast?)).bind
